@@ -94,6 +94,8 @@ type Session struct {
 	msgMeta     *module.MsgMetadata
 	delivery    module.Delivery
 	deliveryErr error
+	// LMTP: normalized recipient address -> spellings given in RCPT TO.
+	rcptAsGiven map[string][]string
 
 	log log.Logger
 }
@@ -154,6 +156,7 @@ func (s *Session) cleanSession() {
 	s.msgMeta = nil
 	s.delivery = nil
 	s.deliveryErr = nil
+	s.rcptAsGiven = nil
 	s.msgCtx = nil
 	s.msgTask.End()
 }
@@ -406,7 +409,16 @@ func (s *Session) rcpt(ctx context.Context, to string, opts *smtp.RcptOptions) e
 		}
 	}
 
-	return s.delivery.AddRcpt(ctx, cleanTo, *opts)
+	if err := s.delivery.AddRcpt(ctx, cleanTo, *opts); err != nil {
+		return err
+	}
+	if s.endp.lmtp && cleanTo != to {
+		if s.rcptAsGiven == nil {
+			s.rcptAsGiven = make(map[string][]string)
+		}
+		s.rcptAsGiven[cleanTo] = append(s.rcptAsGiven[cleanTo], to)
+	}
+	return nil
 }
 
 func (s *Session) Logout() error {
@@ -522,6 +534,12 @@ type statusWrapper struct {
 }
 
 func (sw statusWrapper) SetStatus(rcpt string, err error) {
+	// The pipeline reports under the normalized address, go-smtp expects the
+	// address exactly as it was given in RCPT TO.
+	if asGiven := sw.s.rcptAsGiven[rcpt]; len(asGiven) != 0 {
+		sw.s.rcptAsGiven[rcpt] = asGiven[1:]
+		rcpt = asGiven[0]
+	}
 	sw.sc.SetStatus(rcpt, sw.s.endp.wrapErr(sw.s.msgMeta.ID, !sw.s.opts.UTF8, "DATA", err))
 }
 
